@@ -9,6 +9,21 @@ From Verif Require Export CPrims CppPrims PyPrims.
 Open Scope N_scope.
 
 (* ---- C++ ---- *)
+(* any_bitspan::subspan(bits) as in the CURRENT source (fix commit 939fc9d: "subspan never forms a pointer beyond one past the end
+   of the data"): the pointer advances by data_.size() - newSize = min(offset_bytes, size).  CppPrims.subspan / subspan_bytes are
+   the text before that commit (pointer + offset_bytes, unclamped); they are kept only because Codec/CppWalkerInst.v unfolds them,
+   and agree with these whenever offset_bytes <= data_.size() (PrimsExtThm.subspan_clamped_eq_old). *)
+Definition subspan_clamped (s : span) (bits : N) : span :=
+  let offset_bits := w64 (sp_off s + bits) in
+  let offset_bytes := offset_bits / 8 in
+  let offset_bits_mod := offset_bits mod 8 in
+  let new_size := if offset_bytes <? sp_size s then sp_size s - offset_bytes else 0 in
+  mkspan (skipn (N.to_nat (sp_size s - new_size)) (sp_data s)) new_size offset_bits_mod.
+Definition subspan_bytes_clamped (s : span) (size_bytes : N) : span :=
+  let whole := subspan_clamped s 0 in
+  let available := sp_size whole in
+  mkspan (sp_data whole) (if size_bytes <? available then size_bytes else available) (sp_off whole).
+
 (* VoidResult setZeros() { return setZeros(size()); } *)
 Definition setZeros_all (s : span) : option (bytes + err) := setZeros s (sp_bits s).
 (* void copyTo(bitspan dst){copyTo(dst, size());} *)
